@@ -680,7 +680,7 @@ LEVEL_TEXT = ('Machine-checked Coq theorems for EVERY byte string (not only the 
               'the RNA alphabet (C05_complement_table_sound, _rna), rc = reverse;complement = complement;reverse, length and GC counts preserved, '
               'complement/rc applied twice: exact result and exact region of the involution (C05_twice, C05_involution_iff: iff no U, or U with an A '
               'and no T), RNA = DNA conjugated by T<->U (C05_rna_up_to_U, C05_rna_square, C05_tu_bijection, C05_t2u_square_iff), mixed T/U strings '
-              '(C05_mixed_TU), constructor upper-casing (C05_constructor); the derivation of COMPLEMENT_ALL/COMPLEMENT_TRANS from CODES is a Gallina '
+              '(C05_mixed_TU), rc position by position (C05_rc_positionwise), concatenation/slices commute with complement exactly when the U flag agrees or the U-free piece has no A (C05_complement_app), closed alphabets (C05_closed_alphabets), constructor upper-casing (C05_constructor); the derivation of COMPLEMENT_ALL/COMPLEMENT_TRANS from CODES is a Gallina '
               'function proved to yield the regenerated tables (C05_derived_tables, C05_codes_are_iupac; re-checked against /repo on every run) and '
               'proved sound for ANY code table (C05_derivation_sound: the derived complement denotes the image of the bases, keys as in CODES). '
               'Objects and baskets as a heap of cells with handles: the basket loop reaches an object once per listing (C05_basket_loop), equals '
